@@ -747,3 +747,10 @@ func (s *State) Commits() []*Commit { return s.commits }
 func (s *State) Merged(j int) uint64 { return s.M[j] }
 func (s *State) Snap(j int) vkv.Snap { return s.snaps[j] }
 func (s *State) Nops() int           { return s.nops }
+
+// BlockKey is the raw store key of a block; Exchange serves blocks out of a snapshot.
+func BlockKey(c cid.Cid) string { return blockKey(c) }
+
+type SnapExchange = snapExchange
+
+func Exchange(sn vkv.Snap) SnapExchange { return snapExchange{sn} }
